@@ -268,6 +268,11 @@ func runWS(t *testing.T, ci interface{}, trace bool) *common.Outcome {
 				fail("close-twice", class, "the close callback ran %d times; log: %v", cs.closes, cs.events)
 			}
 			if cs.inCB > 0 {
+				if n := len(cs.events); n >= 2 && cs.events[n-2] == "open-start" {
+					// the same ordering failure as a close that runs before the open callback
+					// starts: the close is not ordered behind the open callback.
+					fail("close-before-open", c.IOMod, "the close callback ran while the open callback was still running; log: %v", cs.events)
+				}
 				cls := class + "/close"
 				if c.IOMod == "transfer" && c.Mode == "ONESHOT" {
 					cls = "transfer/oneshot-sync-executor/close"
